@@ -211,6 +211,8 @@ def write_adf15(d, exp, path):
     typ = {"excitation": "EXCIT", "recombination": "RECOM", "thermalcx": "CHEXC"}
     for b in order:
         k = b["isel"]
+        if d["missing"] == "low" and k == 1:
+            continue                    # the index below still lists ISEL = 1
         s += "%8.1f A%5d%5d /FILMEM = test    /TYPE = %-5s /INDM = T /ISEL = %4d\n" % (b["wavelength_A"], nd, nt, typ[b["cls"]], k)
         s += per_line([1.0e8 * (i + 1) for i in range(nd)], "%9.2E", 8)
         s += per_line([2.0 * (j + 1) for j in range(nt)], "%9.2E", 8)
@@ -218,7 +220,7 @@ def write_adf15(d, exp, path):
             s += per_line([v15(k, i + 1, j + 1) for j in range(nt)], "%9.2E", 8)
     s += "C" + "-" * 71 + "\nC\nC  synthetic file\nC\n"
     index = list(order)
-    if d["missing"]:
+    if d["missing"] == "extra":
         index = index + [{"isel": nb + 1, "cls": "excitation", "upper": nb + 3, "lower": nb + 2, "wavelength_A": 9999.0}]
     if d["header"] == "full":
         s += "C  Configuration        (2S+1)L(w-1/2)   Energy (cm**-1)\nC  --------------------------------------------------------\n"
